@@ -383,7 +383,7 @@ Proof. intros A B f g l H. induction H; cbn; [reflexivity|]. rewrite H, IHForall
 Theorem enc_doc_eq : forall t, no_int8 t = true -> forall v, enc_doc t v = enc t v.
 Proof.
   unfold enc_doc, enc.
-  apply (ty_ind' (fun t => no_int8 t = true -> forall v, enc_with enc_int_doc t v = enc_with enc_int t v)).
+  apply (ty_ind' (fun t => no_int8 t = true -> forall v, enc_with enc_int_doc venc t v = enc_with enc_int venc t v)).
   - intros p H v. cbn [no_int8] in H. apply negb_true_iff in H. cbn [enc_with]. apply enc_prim_doc_eq, H.
   - intros b H v. cbn [no_int8] in H. apply negb_true_iff in H. destruct v; cbn [enc_with]; try reflexivity.
     apply enc_int_doc_eq, H.
@@ -416,3 +416,75 @@ Theorem enc_doc_differs_uint8 : enc_doc (TPrim PUint8) (VInt 200) <> enc (TPrim 
 Proof. vm_compute. discriminate. Qed.
 Theorem enc_doc_differs_int8 : enc_doc (TPrim PInt8) (VInt 1) <> enc (TPrim PInt8) (VInt 1).
 Proof. vm_compute. discriminate. Qed.
+
+(* ---------- Python writes the union case index as one raw byte ---------- *)
+
+(* all unions in the type have fewer than 128 alternatives (null included) *)
+Fixpoint small_unions (t : ty) : bool :=
+  match t with
+  | TPrim _ | TEnum _ => true
+  | TOpt e | TVec e | TFixVec _ e | TArr _ e | TFixArr _ e | TDynArr e => small_unions e
+  | TUnion hn cs => (N.of_nat (length cs) + (if hn then 1 else 0) <? 128) && forallb small_unions cs
+  | TMap k e => small_unions k && small_unions e
+  | TRec fs => forallb small_unions fs
+  end.
+
+Lemma venc_small : forall i, i < 128 -> venc i = [i].
+Proof. intros i H. rewrite venc_unfold. assert (E : (i <? 128) = true) by lia. rewrite E. reflexivity. Qed.
+
+Lemma pick_default : forall (A : Type) (f : ty -> A) (d : A) cs i, N.of_nat (length cs) <= i -> pick f d cs i = d.
+Proof.
+  induction cs as [|c cs IH]; intros i H; [reflexivity|]. cbn [pick length] in *.
+  assert (E : (i =? 0) = false) by lia. rewrite E. apply IH. lia.
+Qed.
+
+Theorem enc_py_eq : forall t, small_unions t = true -> forall v, has_type t v = true -> enc_py t v = enc t v.
+Proof.
+  unfold enc_py, enc.
+  apply (ty_ind' (fun t => small_unions t = true -> forall v, has_type t v = true ->
+                           enc_with enc_int (fun i => [i]) t v = enc_with enc_int venc t v)).
+  - intros p H v Hv. reflexivity.
+  - intros b H v Hv. destruct v; reflexivity.
+  - intros t IH H v Hv. cbn [small_unions] in H. destruct v; cbn [has_type] in Hv; cbn [enc_with]; try reflexivity.
+    rewrite IH by assumption. reflexivity.
+  - intros hn cs IH H v Hv. cbn [small_unions] in H. apply andb_true_iff in H. destruct H as [Hn Hcs].
+    destruct v; cbn [has_type] in Hv; cbn [enc_with]; try discriminate.
+    + rewrite venc_small by lia. reflexivity.
+    + (* the index is in range because the value is well typed *)
+      assert (Hi : i < N.of_nat (length cs)).
+      { destruct (N.lt_ge_cases i (N.of_nat (length cs))) as [Hlt|Hge]; [assumption|].
+        rewrite pick_default in Hv by assumption. discriminate. }
+      rewrite venc_small by (destruct hn; lia). f_equal.
+      clear Hn Hi. revert i Hv. induction cs as [|c cs IHcs]; intros i Hv; [reflexivity|]. cbn [pick] in *.
+      inversion IH as [|? ? Hc HF]; subst. cbn [forallb] in Hcs. apply andb_true_iff in Hcs. destruct Hcs as [H1 H2].
+      destruct (i =? 0); [apply Hc; assumption|apply IHcs; assumption].
+  - intros t IH H v Hv. cbn [small_unions] in H. destruct v; cbn [has_type] in Hv; cbn [enc_with]; try reflexivity. f_equal. f_equal.
+    apply map_ext_Forall, Forall_forall. intros x Hx. apply IH; [assumption|]. rewrite forallb_forall in Hv. apply Hv, Hx.
+  - intros n t IH H v Hv. cbn [small_unions] in H. destruct v; cbn [has_type] in Hv; cbn [enc_with]; try reflexivity. f_equal.
+    apply andb_true_iff in Hv. destruct Hv as [_ Hv].
+    apply map_ext_Forall, Forall_forall. intros x Hx. apply IH; [assumption|]. rewrite forallb_forall in Hv. apply Hv, Hx.
+  - intros r t IH H v Hv. cbn [small_unions] in H. destruct v; cbn [has_type] in Hv; cbn [enc_with]; try reflexivity. f_equal. f_equal.
+    apply andb_true_iff in Hv. destruct Hv as [_ Hv].
+    apply map_ext_Forall, Forall_forall. intros x Hx. apply IH; [assumption|]. rewrite forallb_forall in Hv. apply Hv, Hx.
+  - intros d t IH H v Hv. cbn [small_unions] in H. destruct v; cbn [has_type] in Hv; cbn [enc_with]; try reflexivity. f_equal.
+    apply andb_true_iff in Hv. destruct Hv as [_ Hv].
+    apply map_ext_Forall, Forall_forall. intros x Hx. apply IH; [assumption|]. rewrite forallb_forall in Hv. apply Hv, Hx.
+  - intros t IH H v Hv. cbn [small_unions] in H. destruct v; cbn [has_type] in Hv; cbn [enc_with]; try reflexivity. f_equal. f_equal. f_equal.
+    apply andb_true_iff in Hv. destruct Hv as [_ Hv].
+    apply map_ext_Forall, Forall_forall. intros x Hx. apply IH; [assumption|]. rewrite forallb_forall in Hv. apply Hv, Hx.
+  - intros k e IHk IHe H v Hv. cbn [small_unions] in H. apply andb_true_iff in H. destruct H as [H1 H2].
+    destruct v; cbn [has_type] in Hv; cbn [enc_with]; try reflexivity. f_equal. f_equal.
+    apply map_ext_Forall, Forall_forall. intros x Hx. rewrite forallb_forall in Hv. specialize (Hv x Hx).
+    apply andb_true_iff in Hv. destruct Hv as [Hk He]. rewrite IHk, IHe by assumption. reflexivity.
+  - intros fs IH H v Hv. cbn [small_unions] in H. destruct v; cbn [has_type] in Hv; cbn [enc_with]; try reflexivity.
+    revert vs Hv. induction fs as [|f fs IHfs]; intros vs Hv; [reflexivity|]. cbn [enc_fields all2] in *.
+    inversion IH as [|? ? Hf HF]; subst. cbn [forallb] in H. apply andb_true_iff in H. destruct H as [H1 H2].
+    destruct vs as [|x xs]; [reflexivity|]. apply andb_true_iff in Hv. destruct Hv as [Hx Hxs].
+    rewrite (Hf H1 x Hx), (IHfs HF H2 xs Hxs). reflexivity.
+Qed.
+
+(* with 128 or more alternatives the two writers disagree: C++ writes a two-byte varint, Python one raw byte *)
+Theorem enc_py_differs_large_union :
+  let t := TUnion false (repeat (TPrim PBool) 200) in
+  has_type t (VCase 130 (VInt 1)) = true /\ enc_py t (VCase 130 (VInt 1)) <> enc t (VCase 130 (VInt 1)).
+Proof. vm_compute. split; [reflexivity|discriminate]. Qed.
